@@ -18,11 +18,19 @@ def main() -> int:
     ap.add_argument("--seed", type=int, default=None)
     ap.add_argument("--replay")
     ap.add_argument("--digest", action="store_true")
+    ap.add_argument("--digests", action="store_true", help="list of scenarios on stdin, one digest per line")
     ap.add_argument("--dump", action="store_true", help="with --replay: print the history")
     ap.add_argument("--jobs", type=int, default=None)
     ap.add_argument("--cases", type=int, default=None)
     ap.add_argument("--no-write", action="store_true")
     a = ap.parse_args()
+    if a.digests:
+        from sim.engine import run_scenario
+
+        for scn in json.loads(sys.stdin.read()):
+            run = run_scenario(scn)
+            print("HARNESS:" + repr(run.harness_errors[:1]) if run.harness_errors else run.digest)
+        return 0
     if a.digest:
         from sim.engine import run_scenario
 
